@@ -40,7 +40,10 @@ MODES = ("fsdp", "hsdp")
 
 def gen_cases(tier, seed):
     n = 200 if tier == "quick" else 2500
-    return [{"id": f"{MODES[i % 2]}{i}", "mode": MODES[i % 2], "seed": [seed, i], "interleavings": 1 if tier == "quick" else 2} for i in range(n)]
+    cases = [{"id": f"{MODES[i % 2]}{i}", "mode": MODES[i % 2], "seed": [seed, i], "interleavings": 1 if tier == "quick" else 2} for i in range(n)]
+    if tier == "thorough":  # real torch FSDP on gloo processes: compile_fsdp_parameter_metadata + end-to-end differential
+        cases += [{"id": f"real{i}", "mode": "real_fsdp", "seed": [seed, "real", i], "interleavings": 1} for i in range(10)]
+    return cases
 
 
 # ------------------------------------------------------------------------------------------------ setup generation
@@ -331,6 +334,10 @@ def run_sharded(case, prop_id):
 
 
 def run_case(case):
+    if case["mode"] == "real_fsdp":
+        from . import c07_real
+
+        return c07_real.run(case)
     return run_sharded(case, ID)
 
 
